@@ -5,6 +5,8 @@
 //!   dv-query sql --ops FILE            (debug: print the SQL texts of each val op)
 mod c04;
 mod c04gen;
+mod c05;
+mod c05gen;
 mod util;
 
 use dvcommon::{parse_kv, Args, Stats};
@@ -16,6 +18,7 @@ fn run(ops: &str, out: &str, stats_path: Option<&str>) {
     let mut oracle_lines: Vec<String> = vec![];
     let mut stats = Stats::default();
     let mut case04: Option<c04::Case> = None;
+    let mut case05: Option<c05::Case> = None;
     let mut case_index: i64 = -1;
     let mut first = true;
     let scratch = std::path::Path::new(out).parent().map(|p| p.to_path_buf()).unwrap_or_default().join("dbs");
@@ -29,6 +32,7 @@ fn run(ops: &str, out: &str, stats_path: Option<&str>) {
         let res: String = match kind.as_str() {
             "case" => {
                 case04 = None;
+                case05 = None;
                 match (kv.get("id"), kv.get("e").map(|s| s.as_str())) {
                     (Some(id), Some("c04")) => match c04::Case::parse(&kv) {
                         Some(c) => {
@@ -38,9 +42,33 @@ fn run(ops: &str, out: &str, stats_path: Option<&str>) {
                         }
                         None => "bad-op".into(),
                     },
+                    (Some(id), Some("c05")) => {
+                        let mut c = c05::Case::default();
+                        c.ns = kv.get("ns").map(|x| x == "1").unwrap_or(false);
+                        case05 = Some(c);
+                        stats.inc("cases");
+                        format!("case {}", id)
+                    }
                     _ => "bad-op".into(),
                 }
             }
+            "ent" | "fld" | "build" | "upgrade" | "row" | "q" | "qs" | "qe" | "qf" | "qo" | "ql" | "qa" | "qn" | "run" | "pages" => match case05.as_mut() {
+                Some(c) => {
+                    let mut orc = vec![];
+                    let r = std::panic::catch_unwind(std::panic::AssertUnwindSafe(|| c05::step(c, &kind, &kv, &mut stats, &mut orc)));
+                    for (sig, d) in orc {
+                        oracle_lines.push(format!("{} {} {}", case_index, sig, d));
+                    }
+                    match r {
+                        Ok(l) => l,
+                        Err(_) => {
+                            stats.inc("panics");
+                            "panic".into()
+                        }
+                    }
+                }
+                None => "bad-op".into(),
+            },
             "val" => match (&case04, c04::ValOp::parse(&kv)) {
                 (Some(c), Some(op)) => {
                     let r = std::panic::catch_unwind(std::panic::AssertUnwindSafe(|| {
@@ -81,6 +109,12 @@ fn main() {
             "C04" => c04gen::gen(
                 a.u64_or("seed", 1),
                 a.usize_or("n", 2000),
+                &a.str_or("out", "cases.ops"),
+                &a.str_or("tier", "quick"),
+            ),
+            "C05" => c05gen::gen(
+                a.u64_or("seed", 1),
+                a.usize_or("n", 100),
                 &a.str_or("out", "cases.ops"),
                 &a.str_or("tier", "quick"),
             ),
